@@ -438,16 +438,24 @@ def c14_literal_battery(v: Verdict, hist):
     C2 = mk("MC2", Base, ["c"], "z")
     trees.append(("every class its own tag", [Base, C1, C2], {Base: dict(a=1), C1: dict(a=2, b=3), C2: dict(a=4, c=5)}))
     n = 0
+    from cattrs.gen import override as _ov
+    # overrides= renames: none / the root's attribute / the attributes that tell tag-sharing classes apart / both
+    ov_sets = [None, {0: "title"}, {"length": "len_", "angle": "ang", "b": "bee"}, {0: "title", "length": "len_", "angle": "ang", "c": "cee"}]
     for tname, classes, kws in trees:
+      for ovs in ov_sets:
+        root_attr = src[classes[0].__name__][1][0]
+        overrides = None if ovs is None else {(root_attr if k == 0 else k): _ov(rename=r) for k, r in ovs.items()}
         for strategy in ("auto", "tagged"):
             for forbid in (False, True):
                 for dv in (True, False):
                     conv = Converter(forbid_extra_keys=forbid, detailed_validation=dv)
                     gc.collect()
                     desc = {"lane": "SUB/C14 literal battery", "tree": tname, "classes": {c.__name__: src[c.__name__] for c in classes}, "strategy": strategy,
-                            "forbid_extra_keys": forbid, "detailed_validation": dv}
+                            "forbid_extra_keys": forbid, "detailed_validation": dv,
+                            "overrides": None if overrides is None else {k: f"override(rename={o.rename!r})" for k, o in overrides.items()}}
                     try:
-                        include_subclasses(classes[0], conv, **({"union_strategy": configure_tagged_union} if strategy == "tagged" else {}))
+                        include_subclasses(classes[0], conv, **({"union_strategy": configure_tagged_union} if strategy == "tagged" else {}),
+                                           **({} if overrides is None else {"overrides": overrides}))
                     except Exception:      # noqa  (refusing is allowed: "whenever it is accepted")
                         continue
                     for K in classes:
